@@ -63,7 +63,7 @@ type Profile struct {
 	// ExtWithReps: a round-3 production (ext) combines only with representatives: a term may contain a
 	// production p inside a production a only if neither is ext or the other one is a representative (quick tier, k = 2)
 	ExtWithReps bool
-	Only     map[string]bool
+	Only        map[string]bool
 }
 
 type Gen struct {
@@ -174,8 +174,8 @@ type prod struct {
 	// generic call's result), and fc needs the target's type where the match is written (DESIGN: C02 domain rules, C09 forms 4/5)
 	noTarget bool
 	ext      bool // round 3 (see Profile.ExtWithReps)
-	app   func(t Type) bool
-	mk    func(g *Gen, t Type, env Env2, fuel int, pos int) Expr
+	app      func(t Type) bool
+	mk       func(g *Gen, t Type, env Env2, fuel int, pos int) Expr
 }
 
 func any_(Type) bool { return true }
@@ -237,7 +237,7 @@ func freeVars(x interface{}, bound map[string]bool, out map[string]bool) {
 	}
 	switch v := x.(type) {
 	case nil:
-	case IntLit, StrLit, BoolLit, UnitLit, RawStr:
+	case IntLit, StrLit, StrSrc, BoolLit, UnitLit, RawStr:
 	case Var:
 		if !bound[v.Name] && !strings.HasPrefix(v.Name, "_.") {
 			out[v.Name] = true
@@ -1189,6 +1189,23 @@ func init() {
 		return &Block{Stmts: []Stmt{Let{"sh", rhs}, Let{r, cond}},
 			Final: If{Cond: BinOp{">", Var{r}, IntLit{0}}, Then: B(Var{"sh"}), Else: B(BinOp{"+", Var{"sh"}, IntLit{1}})}}
 	}})
+	// 43 the variable of a string match's last rule has the NAME of an enclosing local that a literal arm uses
+	add(prod{ext: true, name: "match-string-var-shadows", block: true, app: is("string"), mk: func(g *Gen, t Type, env Env2, fuel, pos int) Expr {
+		f := g.split(fuel-1, 2)
+		rhs := g.Gen("string", env, f[0], PosExpr)
+		tg := []Expr{trS("s1"), trS("zz")}[g.C.Choose(2)]
+		m := SMatch{Target: tg, Lits: []SArm{{"s1", B(BinOp{"+", Var{"sw"}, StrLit{"!"}})}}, VarName: "sw",
+			Last: B(BinOp{"+", Var{"sw"}, g.Gen("string", env.with("sw", "string"), f[1], PosExpr)})}
+		// the outer variable is also used before the match: Go would otherwise reject it as unused (it is
+		// shadowed in the whole switch), a louder form of the same defect
+		return &Block{Stmts: []Stmt{Let{"sw", rhs}, ExprStmt{call("say", Var{"sw"})}}, Final: m}
+	}})
+	// 44 a string literal with escapes beyond the documented four: both transpilers hand the literal's text to Go
+	add(prod{ext: true, name: "string-go-escapes", tiny: true, app: is("string"), mk: func(g *Gen, t Type, env Env2, fuel, pos int) Expr {
+		lits := []StrSrc{{`\x41\u00e9`, "A\u00e9"}, {`a\x1b[1m`, "a\x1b[1m"}, {`\101\a\v`, "A\a\v"}, {`t\tq\"b\\`, "t\tq\"b\\"}}
+		l := lits[g.C.Choose(len(lits))]
+		return BinOp{"+", g.Gen("string", env, fuel-1, PosExpr), l}
+	}})
 	// 25 sequencing
 	add(prod{name: "seq", rep: true, tiny: true, block: true, app: any_, mk: func(g *Gen, t Type, env Env2, fuel, pos int) Expr {
 		f := g.split(fuel-1, 2)
@@ -1302,7 +1319,7 @@ func substVars(x interface{}, m map[string]Expr) interface{} {
 		return substVars(b, m).(*Block)
 	}
 	switch v := x.(type) {
-	case IntLit, StrLit, BoolLit, UnitLit, RawStr:
+	case IntLit, StrLit, StrSrc, BoolLit, UnitLit, RawStr:
 		return v
 	case Var:
 		if r, ok := m[v.Name]; ok {
